@@ -129,7 +129,7 @@ def run_case(case, errs):
     def body():
         yield t0
         try:
-            if prog[0] == 'event':
+            if prog[0] in ('event', 'replay'):
                 obj = event({k: val(v) for k, v in prog[2]})
             else:
                 obj = epat(prog[2])
@@ -137,6 +137,11 @@ def run_case(case, errs):
             build_error.append(type(e).__name__)
             return
         obj.play()
+        if prog[0] == 'replay':
+            # the same event OBJECT (or a copy of the already played object) played again later
+            for dt, mode in prog[3]:
+                yield num(dt)
+                (obj if mode == 'same' else obj.copy()).play()
 
     r = routine(body)
     r.play()
